@@ -596,6 +596,7 @@ fn case_event(pass: &str, idx: u64, before: &Project, after: &Project, inits: &[
 /// Run the real passes on a raw project and build the case events (one per pass that changed f, plus
 /// the whole pipeline).  Returns (events, number of unchanged pairs).
 pub fn cases_of(raw: &Project, idx: u64, inits: &[Value], seed: u64, raw_file: &str, only: Option<&str>) -> (Vec<Value>, u64) {
+    let keep_unchanged = only.is_some(); // replay: always re-emit the requested pair
     let mut p1 = raw.clone();
     let _ = p1.normalize_basic();
     let mut events = Vec::new();
@@ -618,7 +619,7 @@ pub fn cases_of(raw: &Project, idx: u64, inits: &[Value], seed: u64, raw_file: &
     for pass in PASSES {
         let (after, panic) = run(pass, &cur);
         if only.map_or(true, |o| o == pass) {
-            if find_fn(&cur) != find_fn(&after) || !panic.is_empty() {
+            if keep_unchanged || find_fn(&cur) != find_fn(&after) || !panic.is_empty() {
                 events.push(case_event(pass, idx, &cur, &after, inits, seed, raw_file, &panic));
             } else {
                 unchanged += 1;
@@ -628,7 +629,7 @@ pub fn cases_of(raw: &Project, idx: u64, inits: &[Value], seed: u64, raw_file: &
     }
     if only.map_or(true, |o| o == "full") {
         let (after, panic) = run("full", &p1);
-        if find_fn(&p1) != find_fn(&after) || !panic.is_empty() {
+        if keep_unchanged || find_fn(&p1) != find_fn(&after) || !panic.is_empty() {
             events.push(case_event("full", idx, &p1, &after, inits, seed, raw_file, &panic));
         } else {
             unchanged += 1;
